@@ -101,6 +101,9 @@ func makeAddrMapFrom(vl []*validator, strict bool) (map[string]int, error) {
 }
 
 func (vl *validatorList) indexOfInLock(addr module.Address, mapCreate bool) int {
+	if addr == nil {
+		return -1
+	}
 	if vl.addrMap == nil {
 		if !mapCreate {
 			for i, v := range vl.validators {
